@@ -852,6 +852,12 @@ func (db *DB) ReplaceVoucher(ctx context.Context, guid protocol.GUID, ov *fdo.Vo
 	if len(ov.Entries) > 0 {
 		return fmt.Errorf("ReplaceVoucher must be called with a voucher having zero extensions")
 	}
+	if ov.Header.Val.GUID == guid {
+		// The replacement is added before the previous voucher is removed
+		// by GUID, so with equal GUIDs the removal would delete the voucher
+		// that was just added and still report success.
+		return fmt.Errorf("ReplaceVoucher must be called with a voucher having a different GUID than the voucher it replaces")
+	}
 
 	// NOTE: This should be a transaction, but that would break Cloudflare D1
 	// compatibility. Therefore, it is an allowed state to have both the
